@@ -362,9 +362,24 @@ def given_sets(chk, pid, binary, sc, abs_sets, kf, runs, moreruns, permruns):
     return sets, res
 
 
+def fixed_sets():
+    """file sets that are part of every run, whatever the seed: two list entries under ONE name (nothing says names are unique), both
+    with extensions / both with declarations, in several positions"""
+    def f(name, header, decls, conds=()):
+        return {"name": name, "header": header, "decls": [{"kind": k, "name": n, "rels": list(r)} for k, n, r in decls], "conds": list(conds), "loose": False}
+    base = f("f1.fga", "m1", [("type", "t", ["r"]), ("type", "u", []), ("type", "v", ["y"])])
+    e1 = f("x.fga", "m2", [("ext", "t", ["s"])])
+    e2 = f("x.fga", "m3", [("ext", "t", ["x"]), ("ext", "u", ["y"])], ["c"])
+    e3 = f("x.fga", "m2", [("ext", "v", ["s", "x"])])
+    d1 = f("a.fga", "m1", [("type", "t", ["r"])])
+    d2 = f("a.fga", "m2", [("type", "u", ["s"])], ["d"])
+    sets = [[base, e1, e2], [e1, base, e2], [e2, e1, base], [base, e1, e2, e3], [e3, base, e2, e1], [d1, d2], [d2, d1, e1], [base, e1, dict(e1, header="m3")]]
+    return [{"id": "fx%d" % k, "files": [dict(x) for x in fs]} for k, fs in enumerate(sets)]
+
+
 def random_sets(n, seed):
     rng = random.Random(seed)
-    out = []
+    out = fixed_sets()
     for k in range(n):
         nf = rng.randint(2, 6)
         files = []
